@@ -160,8 +160,7 @@ int gv_t1, gv_d1, gv_k1, gv_P1, gv_t2, gv_d2, gv_k2, gv_P2;
 int gv_t3, gv_d3, gv_k3, gv_P3; /* ghost component for the forall-introduction of "ind[rank] == position" */
 int gv_t0, gv_dm0, gv_b;       /* ghost observation of update(): its flag/dimension before the call; clipped band */
 _Bool gv_a0;
-Float gv_old, gv_expected;     /* scaleCov: content of the tracked cell before the call / ghost mirror of its expected content */
-#define SC_HITS(S, p) (((S)->covariance_matrix.gv_r0 == (p) ? 1 : 0) + ((S)->covariance_matrix.gv_c0 == (p) ? 1 : 0))
+Float gv_old;                  /* scaleCov: content of the tracked cell before the call */
 int gv_kr;                     /* ghost rank for the forall-introduction of "1 <= ind[k] <= dim" */
 int gv_allocs, gv_frees;       /* ghost: new[] / delete[] executed by activeCov */
 void *gv_ind_obj;
@@ -355,7 +354,13 @@ gv_b = b;
      (3b) if k2-k1 <= result band: result(k1,k2) was written exactly once and holds full(P1,P2);
      (4)  if k2-k1 >  result band: P2-P1 > full band, i.e. full(P1,P2) is a structural zero: nothing is lost;
      (5)  exactly one new[] and one delete[], of the same block; the cluster itself is not modified (assigns).
-   (1), (2) are obligations inside the body: every ind[] access in bounds, ind strictly increasing.              */
+   (1), (2) are obligations inside the body: every ind[] access in bounds, ind strictly increasing, and at every
+   write ind[rank of (i,d)] == position of (i,d).
+   The ghost selections never flow into the program, so the obligations are split over three runs of the same
+   contract (harness h_activeCov, -DGV_SEL): activeCov_ind (arbitrary rank gv_kr: 1 <= ind[k] <= dim for ALL k,
+   memory safety, (2), (3a), (5)), activeCov_pos (arbitrary component gv_t3,gv_d3: ind[rank] == position for ALL
+   components, i.e. not overwritten later), activeCov_cell (arbitrary pair: (3b), (4); uses the two forall facts
+   by instantiation).                                                                                           */
 //@ contract Cluster_activeCov
 __CPROVER_requires(WF_CLUSTER(self))
 __CPROVER_requires(self->covariance_matrix.row_ == NTOT(self))
@@ -457,33 +462,25 @@ GV_INST(1 <= i + j && i + j <= N, 1 <= ind[i + j] && ind[i + j] <= self->covaria
 __CPROVER_requires(__CPROVER_rw_ok(self, sizeof(struct Cluster)) && WF_COV(&self->covariance_matrix))
 __CPROVER_requires(self->covariance_matrix.row_ <= 3 * MAXN)
 __CPROVER_requires(1 <= p && p <= self->covariance_matrix.row_)
-__CPROVER_requires(self->covariance_matrix.gv_writes == 0 && SAMEVAL(self->covariance_matrix.gv_cell, gv_old) && SAMEVAL(gv_expected, gv_old))
+__CPROVER_requires(self->covariance_matrix.gv_writes == 0 && self->covariance_matrix.gv_cell == gv_old)
 __CPROVER_requires(1 <= self->covariance_matrix.gv_r0 && self->covariance_matrix.gv_r0 <= self->covariance_matrix.gv_c0 &&
                    self->covariance_matrix.gv_c0 <= self->covariance_matrix.row_ &&
                    self->covariance_matrix.gv_c0 - self->covariance_matrix.gv_r0 <= self->covariance_matrix.band_)
-__CPROVER_assigns(self->covariance_matrix.gv_cell, self->covariance_matrix.gv_sink, self->covariance_matrix.gv_writes, gv_expected)
-__CPROVER_ensures(self->covariance_matrix.gv_writes == SC_HITS(self, p))
-__CPROVER_ensures(SAMEVAL(self->covariance_matrix.gv_cell, gv_expected))
-__CPROVER_ensures(SC_HITS(self, p) == 0 ==> SAMEVAL(gv_expected, gv_old))
+__CPROVER_assigns(self->covariance_matrix.gv_cell, self->covariance_matrix.gv_sink, self->covariance_matrix.gv_writes)
+__CPROVER_ensures(self->covariance_matrix.gv_writes ==
+                  ((self->covariance_matrix.gv_r0 == p ? 1 : 0) + (self->covariance_matrix.gv_c0 == p ? 1 : 0)))
+__CPROVER_ensures(self->covariance_matrix.gv_writes == 0 ==> SAMEVAL(self->covariance_matrix.gv_cell, gv_old))
 //@ entry Cluster_scaleCov
 GV_CANARY("Cluster_scaleCov entry");
-//@ pre Cluster_scaleCov 1
-/* ghost mirror of the diagonal statement above: the expected content of the tracked cell */
-if (self->covariance_matrix.gv_r0 == p && self->covariance_matrix.gv_c0 == p) gv_expected = gv_expected * sc;
 //@ loop Cluster_scaleCov 1
-__CPROVER_assigns(i, self->covariance_matrix.gv_cell, self->covariance_matrix.gv_sink, self->covariance_matrix.gv_writes, gv_expected)
+__CPROVER_assigns(i, self->covariance_matrix.gv_cell, self->covariance_matrix.gv_sink, self->covariance_matrix.gv_writes)
 __CPROVER_loop_invariant(q <= i && i <= k + 1 &&
                          self->covariance_matrix.gv_writes ==
                            ((self->covariance_matrix.gv_r0 == p && self->covariance_matrix.gv_c0 == p) ? 1 : 0) +
                            (((self->covariance_matrix.gv_r0 == p && self->covariance_matrix.gv_c0 < i) ||
                              (self->covariance_matrix.gv_c0 == p && self->covariance_matrix.gv_r0 < i)) ? 1 : 0) &&
-                         SAMEVAL(self->covariance_matrix.gv_cell, gv_expected) &&
-                         (self->covariance_matrix.gv_writes == 0 ==> SAMEVAL(gv_expected, gv_old)))
+                         (self->covariance_matrix.gv_writes == 0 ==> SAMEVAL(self->covariance_matrix.gv_cell, gv_old)))
 __CPROVER_decreases(k + 1 - i)
-//@ tail Cluster_scaleCov 1
-/* ghost mirror: element (p,i) is the tracked cell */
-if ((self->covariance_matrix.gv_r0 == p && self->covariance_matrix.gv_c0 == i) ||
-    (self->covariance_matrix.gv_c0 == p && self->covariance_matrix.gv_r0 == i)) gv_expected = gv_expected * sc;
 //@ end
 
 /* ------------------------------------------------------------------------------------------------------------ */
@@ -586,7 +583,6 @@ void h_scaleCov(void)
                    S.covariance_matrix.gv_c0 - S.covariance_matrix.gv_r0 <= S.covariance_matrix.band_);
   S.covariance_matrix.gv_writes = 0;
   gv_old = S.covariance_matrix.gv_cell;
-  gv_expected = gv_old;
   Cluster_scaleCov(&S, p, sc);
   GV_CANARY("h_scaleCov end");
 }
